@@ -3,7 +3,7 @@
 import json, os, subprocess, sys
 ROOT = os.path.dirname(os.path.dirname(os.path.abspath(__file__)))
 sys.path.insert(0, os.path.join(ROOT, "checkers"))
-from checks import CHECKS
+from checks import CHECKS, NOT_READY
 props = [json.loads(l) for l in open(os.path.join(ROOT, "properties.jsonl"))]
 hook_commits = subprocess.run(["git", "-C", "/repo", "log", "--format=%H %s"], capture_output=True, text=True).stdout.splitlines()
 hook_commits = [l.split()[0] for l in hook_commits if "verif hooks" in l]
@@ -17,7 +17,7 @@ m = {
         "source_commits": hook_commits,
         "add_only": True,
     },
-    "engines": [{"name": "vf", "path": "/verif/vf", "serves_properties": sorted(CHECKS),
+    "engines": [{"name": "vf", "path": "/verif/vf", "serves_properties": sorted(set(CHECKS) - NOT_READY),
                  "kind_free_text": "runtime monitoring: randomized/enumerated workloads against the real library built with ASan+UBSan / TSan / plain, judged by independent oracles in /verif/harness, driven by /verif/vf"}],
     "checks": [],
     "not_applicable": [],
@@ -25,7 +25,7 @@ m = {
 }
 for p in props:
     pid = p["id"]
-    if pid in CHECKS:
+    if pid in CHECKS and pid not in NOT_READY:
         c = CHECKS[pid]
         m["checks"].append({
             "property_id": pid,
